@@ -416,17 +416,17 @@ def h_model_assemble(s1: int, l1: int, s2: int, l2: int):
 
 
 # ---- AbstractNumberWithUnitModel.parse: the b_add filter ---------------------------------------------------------------
-def _contained_or_crossing(spans):
-    """known-finding region F3b: a later result lies inside, or partially overlaps, an earlier one (the filter only rejects
-    a later result that covers an earlier one)"""
+def _identical_or_disjoint(spans):
+    """what AbstractNumberWithUnitModel.parse can be handed: each extractor/parser pair yields pairwise disjoint results, and the
+    accumulating loop re-processes earlier results, so any two entries are either the same span or disjoint"""
     for j in range(len(spans)):
         for i in range(j):
             (s1, l1), (s2, l2) = spans[i], spans[j]
-            overlap = s1 < s2 + l2 and s2 < s1 + l1
-            covers = s2 <= s1 and s1 + l1 <= s2 + l2
-            if overlap and not covers:
-                return True
-    return False
+            same = (s1 == s2) & (l1 == l2) if not isinstance(s1 == s2, bool) else (s1 == s2 and l1 == l2)
+            apart = (s1 + l1 <= s2) | (s2 + l2 <= s1) if not isinstance(s1 + l1 <= s2, bool) else (s1 + l1 <= s2 or s2 + l2 <= s1)
+            if not (same or apart):
+                return False
+    return True
 
 
 def _unit_model_spans(spans):
@@ -442,16 +442,11 @@ def _unit_model_spans(spans):
 
 def h_b_add(s1: int, l1: int, s2: int, l2: int, s3: int, l3: int):
     spans = [(s1, l1), (s2, l2), (s3, l3)]
-    assume(all(0 <= s and 1 <= l and s + l <= N for (s, l) in spans) and not _contained_or_crossing(spans))
+    assume(all(0 <= s and 1 <= l and s + l <= N for (s, l) in spans) and _identical_or_disjoint(spans))
     out = _unit_model_spans(spans)
-    assert disjoint(out)
-
-
-def h_b_add_kf(s1: int, l1: int, s2: int, l2: int, s3: int, l3: int):
-    spans = [(s1, l1), (s2, l2), (s3, l3)]
-    assume(all(0 <= s and 1 <= l and s + l <= N for (s, l) in spans) and _contained_or_crossing(spans))
-    out = _unit_model_spans(spans)
-    assert disjoint(out)
+    assert disjoint(out)                                   # repeated results are reported once
+    for (s, l) in spans:
+        assert any(o[0] == s and o[1] == l for o in out)   # and nothing else is dropped
 
 
 # ---- NumberWithUnitExtractor.extract: prefix / suffix offset arithmetic, relative number position ---------------------------------
